@@ -265,6 +265,9 @@ func isAggregate(t types.Type) bool {
 }
 
 func (x *Exec) store(c *Cell, v Value) {
+	if n := len(x.mergeMark); n > 0 && c.ID <= x.mergeMark[n-1] {
+		panic(mergeAbort{"write to memory older than the merged call"})
+	}
 	switch vv := v.(type) {
 	case *StructV:
 		if len(c.Sub) != len(vv.F) {
